@@ -51,6 +51,8 @@ class ChannelList(gpp.UGenSequence, aob.AbstractSequence, list):
     ### UGen convenience methods (keep in sync with UGen) ###
 
     def _multichannel_perform(self, selector, *args):
+        if len(self) == 0:
+            return type(self)()
         l = [gpp.ugen_param(i) for i in self]
         l = [getattr(i[0], selector)(*i[1:]) for i in utl.flop([l, *args])]
         return type(self)(l)
